@@ -115,6 +115,7 @@ fn run() -> Result<(), Fail> {
     let mut pr = printer::Printer::new();
     let mut functions = vec![];
     let mut cur: Option<FnSpec> = None;
+    let mut hdr_buf: Vec<(usize, String)> = vec![]; // template lines between //@fn and //@body (signature + contract)
     let mut block: Option<(String, String, String)> = None; // (kind, key, text)
 
     let mut idx = 0;
@@ -151,7 +152,8 @@ fn run() -> Result<(), Fail> {
                 bail!("template line {}: //@fn before previous //@body", tl);
             }
             cur = Some(FnSpec { attrs: kv(rest), ..Default::default() });
-            pr.template_line(*tl, &format!("// ---- extracted: {}", rest));
+            hdr_buf.clear();
+            hdr_buf.push((*tl, format!("// ---- extracted: {}", rest)));
             continue;
         }
         if let Some(rest) = t.strip_prefix("//@closure ") {
@@ -176,8 +178,41 @@ fn run() -> Result<(), Fail> {
             }
             let file = spec.attrs.get("file").cloned().ok_or_else(|| Fail(format!("template line {}: //@fn without file=", tl)))?;
             let ast = load(&file)?;
-            let info = rewrite::extract(&ast, &file, &spec, &mut pr)?;
-            functions.push(info);
+            // try the extraction on a scratch printer first: a function that cannot be brought through (lost anchor,
+            // unsupported construct) is DEGRADED to an assumed contract instead of failing the whole unit; the
+            // reporter treats every clause of a degraded function as undecided (or decided by a bounded stand-in)
+            let mut trial = printer::Printer::new();
+            match rewrite::extract(&ast, &file, &spec, &mut trial) {
+                Ok(_) => {
+                    for (l, text) in hdr_buf.drain(..) {
+                        pr.template_line(l, &text);
+                    }
+                    let info = rewrite::extract(&ast, &file, &spec, &mut pr)?;
+                    functions.push(info);
+                }
+                Err(Fail(reason)) => {
+                    if std::env::var("VP_EXTRACT_STRICT").is_ok() {
+                        return Err(Fail(reason));
+                    }
+                    let g0 = pr.cur_line();
+                    let mut first = true;
+                    for (l, text) in hdr_buf.drain(..) {
+                        pr.template_line(l, &text);
+                        if first {
+                            pr.template_line(l, "#[verifier::external_body] /* DEGRADED: body not verified, see map.json */");
+                            first = false;
+                        }
+                    }
+                    pr.template_line(*tl, "{ unimplemented!() }");
+                    functions.push(json!({
+                        "id": spec.attrs.get("id").cloned().unwrap_or_default(), "file": file, "repo_lines": [0, 0],
+                        "gen_lines": [g0, pr.cur_line()], "fn_index": g0, "parallel_cfg": false, "rewrites": [],
+                        "tags": spec.attrs.get("tags").cloned().unwrap_or_default(),
+                        "safety_tags": spec.attrs.get("safety_tags").cloned().unwrap_or_default(),
+                        "degraded": reason,
+                    }));
+                }
+            }
             continue;
         }
         if let Some(rest) = t.strip_prefix("//@struct ") {
@@ -207,7 +242,11 @@ fn run() -> Result<(), Fail> {
         if t.starts_with("//@") {
             bail!("template line {}: unknown directive {}", tl, t);
         }
-        pr.template_line(*tl, line);
+        if cur.is_some() {
+            hdr_buf.push((*tl, line.to_string()));
+        } else {
+            pr.template_line(*tl, line);
+        }
     }
     if cur.is_some() || block.is_some() {
         bail!("template ended inside a //@fn or block");
